@@ -37,8 +37,11 @@ CONTENTS = [
     ("foreign-end-marker", ["x = 1;", "#pragma endasmx", "y = 2;"]),
     ("long-line", ["x = " + "+".join(["a"] * 80) + ";"]),
     ("case-label", ["case 3:", "default:", "public:"]),
+    ("col1-comments", ["// line comment with trailing blanks   ", "/* block */  x  =  1;", "  y=2; // tail  "]),
+    ("backslash-cont", ["#define X(a)   \\", "   (a)   \\", "   + 1", "z  =  3 \\", "  ;"]),
 ]
-QUICK_CONTENTS = ("tidy", "misindented", "not-code", "lone-close-brace", "tabs-trailing", "ws-only-lines", "blank-runs", "unterminated-string", "preproc")
+QUICK_CONTENTS = ("tidy", "misindented", "not-code", "lone-close-brace", "tabs-trailing", "ws-only-lines", "blank-runs", "unterminated-string", "preproc",
+                  "col1-comments", "backslash-cont")
 
 MARKERS = {
     "block": ("/* *INDENT-OFF* */", "/* *INDENT-ON* */", {}, " *INDENT-OFF*", " *INDENT-ON*"),
@@ -183,9 +186,10 @@ def job(j):
     reads = one((), want_reads=sweep)
     if sweep and reads is not None:
         # (the markers themselves are fixed per job; utf8_force / utf8_byte transcode the whole file, which is C09's subject)
-        pred = lambda n: n not in ("disable_processing_cmt", "enable_processing_cmt", "processing_cmt_as_regex", "utf8_force", "utf8_byte", "utf8_bom")
-        s1 = configs.singles(R, base, reads, pred)
-        res["pruned"] = len(configs.singles(R, base, None, pred)) - len(s1)
+        pred = lambda n: n not in ("disable_processing_cmt", "enable_processing_cmt", "processing_cmt_as_regex", "utf8_force", "utf8_byte", "utf8_bom") \
+            and not n.startswith("cmt_insert_")
+        s1 = configs.singles(R, base, reads, pred, allow_lexer=True)
+        res["pruned"] = len(configs.singles(R, base, None, pred, allow_lexer=True)) - len(s1)
         for d in s1:
             one((d,))
     return res
@@ -230,15 +234,15 @@ def check(ctx):
                 if i in (0, len(lines)) or not quick:
                     jobs.append((name, lang, lines, i, marker, "\n", False, "defaults", {}, contents_q[:5] if quick else contents_all, False))
     # single deviations over the read set
-    sweepc = [c for c in CONTENTS if c[0] in ("misindented", "blank-runs", "lone-close-brace", "ws-only-lines")]
+    sweepc = [c for c in CONTENTS if c[0] in ("misindented", "col1-comments", "backslash-cont", "blank-runs", "lone-close-brace", "ws-only-lines")]
     for name, lang, lines in progs:
         if quick and name not in ("c-basic", "cpp-class", "pawn-basic", "c-switch", "pp-if-inside", "decl-varblock"):
             continue
         pos = [i for i in range(len(lines) + 1) if i == 0 or not lines[i - 1].endswith("\\")]
-        pick = pos[2::5] if quick else pos[::2]
+        pick = pos[2::5] if quick else sorted(set(pos[::2]) | set(pos[2::5]))     # thorough is a superset of quick
         for i in pick:
             for marker in (("block",) if quick else ("block", "pragma-asm", "line")):
-                jobs.append((name, lang, lines, i, marker, "\n", True, "defaults", {}, sweepc[:3] if quick else sweepc, True))
+                jobs.append((name, lang, lines, i, marker, "\n", True, "defaults", {}, sweepc[:4] if quick else sweepc, True))
     ctx.log("jobs: %d (programs %d)" % (len(jobs), len(progs)))
     jobs.sort(key=lambda j: -int(j[-1]))
     agg = {"runs": 0, "nontrivial": 0, "cases": 0, "pruned": 0}
